@@ -4,3 +4,4 @@ import BalmProofs.Props.C06
 #print axioms Balm.attr_const
 #print axioms Balm.Impl.inAttrB_iff
 #print axioms Balm.Impl.mem_reachSet
+#print axioms Balm.Impl.judgeForces_sound
